@@ -46,7 +46,12 @@ void cache::clear()
 {
   std::unique_lock lock(mutex_);
 
-  ++seal_;
+  if (++seal_ == 0)  // wrap around: wipe, or slots of an old epoch revive
+  {
+    for (auto &s : table_)
+      s = slot();
+    seal_ = 1;
+  }
 
   // for (auto &s : table_)
   // {
